@@ -46,6 +46,8 @@ def delay_present(I, dm, key):
     p = _pending(I, dm)
     cur = I.container(p.ref).get(key)
     if cur is None:
+        if I.heap.data.get((dm, "all_cleared")):
+            return z3.BoolVal(False)
         ep = I.heap.data.get((dm, "epoch"), 0)
         return z3.Bool("%s.pending0%s[%s]" % (dm.name, "@%d" % ep if ep else "", key))
     return z3.BoolVal(cur is not TOMB)
@@ -90,6 +92,13 @@ def delay_add(I, env, args, kwargs):
     if I.force(name).tag == "none":
         I.ctx.fresh_n += 1
         key = "uuid#%d" % I.ctx.fresh_n
+    elif I.pyconst(I.force(name)) is MISSING:
+        # a computed (symbolic) name may coincide with any pending delay and replace it
+        kw = _kwargs_of(I, env)
+        _check_deferred_requires(I, env["callback"], kw, "delay.add")
+        havoc_pending(I, dm)
+        emit(I, "delay.add", dm=dm, name=name, ms=env["ms"], callback=env["callback"], kwargs=kw, computed_name=True)
+        return name
     else:
         key = _name_key(I, name)
     kw = _kwargs_of(I, env)
@@ -129,7 +138,14 @@ def delay_check(I, env, args, kwargs):
 
 
 def delay_clear(I, env, args, kwargs):
-    raise Unsupported("DelayManager.clear in the client-view model")
+    """every delay of this manager is cancelled"""
+    dm = env["self"].ref
+    p = _pending(I, dm)
+    I.set_container(p.ref, DConc(()))
+    I.heap.data[(dm, "all_cleared")] = True
+    I.modified.add((dm, "all_cleared"))
+    emit(I, "delay.clear", dm=dm)
+    return NONE
 
 
 def fresh_delay_manager(I, name):
@@ -145,6 +161,7 @@ def havoc_pending(I, dm):
     p = _pending(I, dm)
     I.ctx.fresh_n += 1
     I.heap.data[(dm, "epoch")] = I.ctx.fresh_n
+    I.heap.data.pop((dm, "all_cleared"), None)
     I.heap.data[(p.ref, "$")] = DConc(())
     I.modified.add((p.ref, "$"))
 
